@@ -12,7 +12,7 @@ from props.c08 import _dict_script, _set_script
 
 ID = "C13"
 ASAN_THOROUGH = True   # thorough tier runs against the AddressSanitizer build
-RULE = ("if_then_else(cond, a, b), or if_cmp(cmp_(x, 0), a, b, g) with three targets - optionally passed on through a nested pass-through "
+RULE = ("if_then_else(cond, a, b), if_cmp(cmp_(x, 0), a, b, g) with three targets, or switch_ whose branches pass a or b through - optionally passed on through a nested pass-through "
         "graph - over scripted targets of shape TS[int], TSS[int], TSD[int,TS[int]] or TSB[TS[int],TS[int]], read by 1-3 consumers below "
         "the reference plus a consumer of the reference itself. Condition and target histories give every "
         "relative timing: retarget to a target that last ticked earlier / in the same cycle / never, retarget back, re-publication of the "
@@ -57,8 +57,14 @@ def case(draw, tier):
     ctimes = draw(gen.time_set(start, end - 1, 1, 9 if big else 6))
     # the reference is made by if_then_else (two targets, boolean condition) or by if_cmp (three targets, selected by the
     # three-way result of cmp_(x, 0) for a scripted x)
-    via = draw(st.sampled_from(["ite", "ite", "cmp"]))
-    if via == "ite":
+    via = draw(st.sampled_from(["ite", "ite", "cmp", "switch"]))
+    if via == "switch" and shape.startswith("TSB"):
+        via = "ite"     # a bundle forwarded out of a switch_ keeps the fields last forwarded by the previous branch: not asserted here
+    if via == "switch":
+        # switch_ whose branches pass one of the outer inputs through: the output follows a or b by reference
+        c = [[t, [{"k": "set", "v": draw(st.integers(0, 1))}]] for t in ctimes]
+        g = []
+    elif via == "ite":
         c = [[t, [{"k": "set", "v": draw(st.booleans())}]] for t in ctimes]
         g = []
     else:
@@ -100,6 +106,12 @@ def check(case, ctx) -> Result:
                  {"id": "b", "op": "src", "schema": shape, "script": case["b"]},
                  {"id": "sel0", "op": "op", "name": "if_then_else", "args": [{"ts": "c"}, {"ts": "a"}, {"ts": "b"}], "has_out": True}]
         pick = lambda v: "a" if v else "b"
+    elif via == "switch":
+        stmts = [{"id": "c", "op": "src", "schema": "TS[int]", "script": case["c"]},
+                 {"id": "a", "op": "src", "schema": shape, "script": case["a"]},
+                 {"id": "b", "op": "src", "schema": shape, "script": case["b"]},
+                 {"id": "sel0", "op": "op", "name": "switch_", "args": [{"ts": "c"}, {"cases": [[0, "PA"], [1, "PB"]], "key_t": "int", "reload": False}, {"ts": "a"}, {"ts": "b"}], "has_out": True}]
+        pick = lambda v: "a" if v == 0 else "b"
     else:
         stmts = [{"id": "c", "op": "src", "schema": "TS[int]", "script": case["c"]},
                  {"id": "z", "op": "src", "schema": "TS[int]", "script": [[start, [{"k": "set", "v": 0}]]]},
@@ -126,6 +138,9 @@ def check(case, ctx) -> Result:
                     if arg.get("ts") in tn:
                         arg["ts"] = {"r": "ab", "path": [tn.index(arg["ts"])]}
     subs = {}
+    if via == "switch":
+        subs["PA"] = {"params": [shape, shape], "names": ["a", "b"], "out": shape, "stmts": [], "ret": {"arg": 0}}
+        subs["PB"] = {"params": [shape, shape], "names": ["a", "b"], "out": shape, "stmts": [], "ret": {"arg": 1}}
     sel = "sel0"
     if case["nested"]:
         subs["PT"] = {"params": [shape], "out": shape, "stmts": [], "ret": {"arg": 0}}
@@ -134,7 +149,8 @@ def check(case, ctx) -> Result:
     for j in range(case["n_cons"]):
         stmts.append({"id": f"k{j}", "op": "node", "ins": [sel], "deep": True})
     # a consumer of the reference itself: it must tick only when the selection really changes
-    stmts.append({"id": "kref", "op": "node", "ins": ["sel0"], "as_ref": True, "valid": []})
+    if via != "switch":
+        stmts.append({"id": "kref", "op": "node", "ins": ["sel0"], "as_ref": True, "valid": []})
     prog = {"start": start, "end": end, "stmts": stmts}
     if subs:
         prog["subs"] = subs
@@ -208,7 +224,7 @@ def check(case, ctx) -> Result:
             sel_changes.append(t)
         last = v
     ref_ticks = [d["t"] for d in tr.evals_of("kref", "r") if d["ins"][0].get("m")]
-    if ref_ticks != sel_changes:
+    if via != "switch" and ref_ticks != sel_changes:
         extra = [t for t in ref_ticks if t not in sel_changes]
         res.violations.append(Viol("reference_republished" if extra else "reference_not_published", f"the reference output ticked at {ref_ticks[:12]} but the selection changed at {sel_changes[:12]}", feats0))
     for j in range(case["n_cons"]):
